@@ -10,9 +10,9 @@ RULE = ("MC: all toy-profile strings up to length 8 (partition, stability) + rea
 
 
 def sig(ev, d):
-    b = ev.get("bytes", [])
-    return "FrameNew out=%s len=%d decl=%s admissible=%s" % (ev.get("out"), len(b),
-            (((b[1] & 3) << 8) | b[2]) if len(b) >= 3 else "-", d.get("admissible"))
+    exp = d.get("expected", {})
+    wrong = [k for k in ("flen", "dlen", "crc", "num") if ev.get("out") == "ok" and k in exp and exp.get(k) != ev.get(k)]
+    return "FrameNew out=%s admissible=%s wrong_fields=%s" % (ev.get("out"), d.get("admissible"), wrong)
 
 
 def run(chk):
